@@ -28,6 +28,9 @@ in parallel, pydra is only used to recompute the expected mangled value):
   bytes-as-sequence-rebuilt declared Sequence[E]/Iterable[E], given bytes, stored bytes([E(b) ...]) != given
   str-split-into-set        declared set[E]/frozenset[E], given a str, stored {E(ch) for ch}
   set-joined-into-str       declared str, given a set/frozenset, stored str(given)
+  union-alternative-raises-oserror  the stored value conforms to the declared union but assigning it again
+                            raises FileNotFoundError: an earlier File/Directory alternative raises a
+                            non-TypeError, which escapes coerce_union instead of trying the next one
   union-coerces-before-exact-match  only idempotence fails and some union in the type changes a value
                             that already conforms to one of its alternatives
 """
@@ -124,6 +127,12 @@ def mechanisms(spec, inp, out):
                 for (k1, v1), (k2, v2) in zip(i.items(), o.items()):
                     walk(a[0], k1, k2)
                     walk(a[1], v1, v2)
+            elif isinstance(i, dict) and isinstance(o, dict) and len(i) * len(o) <= 36:
+                # coerced keys collided (e.g. () and frozenset() -> frozenset()): try every pairing
+                for k1, v1 in i.items():
+                    for k2, v2 in o.items():
+                        walk(a[0], k1, k2)
+                        walk(a[1], v1, v2)
             return
         sized = (list, tuple, set, frozenset)
         if isinstance(i, sized) and isinstance(o, sized):
@@ -210,6 +219,10 @@ def classify(spec, given, stored, problems):
     kinds = {p["kind"] for p in problems}
     if kinds == {"not-idempotent"} and union_recoerces(spec, stored):
         return "union-coerces-before-exact-match"
+    if (kinds == {"stored-value-rejected-on-reassign"} and G.contains(spec, ("union", "opt"))
+            and G.contains(spec, ("File", "Directory")) and R.conforms(stored, spec)
+            and all(p["exc"] in ("FileNotFoundError", "FileFormatsError") for p in problems)):
+        return "union-alternative-raises-oserror"
     ev = mechanisms(spec, given, stored)
     if not ev:
         return None
@@ -342,11 +355,11 @@ def run(ctx):
     nsys = len(G.depth1_types())
     cases = [{"kind": "systematic", "lo": i, "hi": min(nsys, i + 24), "runs": 6 if quick else 40, "run_p": 0.02}
              for i in range(0, nsys, 24)]
-    nrand = 16 if quick else 400
+    nrand = 16 if quick else 200
     for i in range(nrand):
         cases.append({"kind": "random", "idx": i, "n_types": 40 if quick else 100, "per_type": 8,
                       "max_depth": 3, "runs": 16 if quick else 60, "run_p": 0.12})
-    ctx.record_all(ctx.pmap("vp.props.c20:batch", cases, nproc=8 if quick else 16,
+    ctx.record_all(ctx.pmap("vp.props.c20:batch", cases, nproc=8 if quick else 16, env={"PYTHONHASHSEED": "0"},
                             timeout=300 if quick else 2400))
     ctx.extra["systematic_types"] = nsys
     ctx.assumptions = [
